@@ -29,13 +29,24 @@ func interpolateV1(v1, v2, t float64) float64 {
 	return ((v2 - v1) * t) + v1
 }
 
+// vertexCornerMargin is the distance (in cells) a surface vertex keeps from both ends of the grid edge
+// it lies on. Vertices of different grid edges are then at least this far apart, so welding by rounded
+// position (weldDecimalPlaces, in cell units) only ever joins the copies of one and the same vertex -
+// also when a sample equals the cutoff and at any number of cubes per unit.
+const vertexCornerMargin = 1e-3
+
+// weldDecimalPlaces is the precision, in cell units, at which vertices are merged (LookupOrAdd inside
+// a block, WeldByFloat3Attribute across blocks).
+const weldDecimalPlaces = 4
+
 func interpolateVerts(v1, v2 vector3.Float64, v1v, v2v, cutoff float64) vector3.Float64 {
 	t := interpolationValueFromCutoff(v1v, v2v, cutoff)
+	t = math.Min(math.Max(t, vertexCornerMargin), 1-vertexCornerMargin)
 	return v2.Sub(v1).Scale(t).Add(v1)
 }
 
 func LookupOrAdd(data *workingData, vert vector3.Float64) int {
-	distritized := modeling.Vector3ToInt(vert, 4)
+	distritized := modeling.Vector3ToInt(vert, weldDecimalPlaces)
 
 	if foundIndex, ok := data.vertLookup[distritized]; ok {
 		return foundIndex
@@ -719,13 +730,15 @@ func (d MarchingCanvas) MarchOnAttribute(attribute string, cutoff float64) model
 			if marched.PrimitiveCount() == 0 {
 				return marched
 			}
+			// weld while the positions are still in cell units: what is merged must not depend on
+			// cubesPerUnit (a fixed 1e-3 world units is 0.4 cells at 400 cubes per unit)
 			return marched.
+				WeldByFloat3Attribute(attribute, weldDecimalPlaces).
 				Transform(
 					meshops.ScaleAttribute3DTransformer{
 						Amount: vector3.One[float64]().DivByConstant(d.cubesPerUnit),
 					},
-				).
-				WeldByFloat3Attribute(attribute, 3)
+				)
 		}
 	}
 	panic(fmt.Errorf("canvas did not contain Float1 attribute %s", attribute))
@@ -742,13 +755,15 @@ func (d MarchingCanvas) MarchOnAttributeParallel(attribute string, cutoff float6
 			if marched.PrimitiveCount() == 0 {
 				return marched
 			}
+			// weld while the positions are still in cell units: what is merged must not depend on
+			// cubesPerUnit (a fixed 1e-3 world units is 0.4 cells at 400 cubes per unit)
 			return marched.
+				WeldByFloat3Attribute(attribute, weldDecimalPlaces).
 				Transform(
 					meshops.ScaleAttribute3DTransformer{
 						Amount: vector3.One[float64]().DivByConstant(d.cubesPerUnit),
 					},
-				).
-				WeldByFloat3Attribute(attribute, 3)
+				)
 		}
 	}
 	panic(fmt.Errorf("canvas did not contain Float1 attribute %s", attribute))
